@@ -187,7 +187,7 @@ def sync_tree(root, sub, files):
     write_files(base, files)
 
 
-def query_paths(cwd, target, release=False):
+def query_paths(cwd, target, release=False, defines=()):
     """package name -> {src, build, dist} workspace paths (only those that exist) of target and
     everything below it. `bob query-path` shows a package only if ALL requested directories exist,
     so each kind is queried on its own (separate processes from the build)."""
@@ -199,6 +199,7 @@ def query_paths(cwd, target, release=False):
         argv += ["query-path", "-q", "-f", "{name}|%s|{%s}" % (kind, kind)]
         if release:
             argv.append("--release")
+        argv += list(defines)
         argv += [target, target + "//*"]
     r = run_bob(cwd, argv, record=False)
     if r.rc != 0:
